@@ -424,14 +424,14 @@ class eval_abs(object):
         return ret_value
 
     def eval_op_rotl(self, args, op_size, cast_int):
-        r = args[1]&0x1F
-        r %=op_size
+        # count modulo the width (masking with 0x1F first is wrong for 64-bit operands)
+        r = args[1]%op_size
         ret_value = ((args[0]<<r) & mymaxuint[op_size]) | ((args[0] & mymaxuint[op_size]) >> (op_size-r))
         return ret_value
 
     def eval_op_rotr(self, args, op_size, cast_int):
-        r = args[1]&0x1F
-        r %=op_size
+        # count modulo the width (masking with 0x1F first is wrong for 64-bit operands)
+        r = args[1]%op_size
         ret_value = ((args[0] & mymaxuint[op_size])>>r)  | ((args[0] << (op_size-r)) & mymaxuint[op_size])
         return ret_value
 
